@@ -75,6 +75,26 @@ Definition index_grids (na kpl : nat) (nodes : nat -> seq F) (tol : nat -> F)
   [seq (tol k, (take (kpl * nth 0%N i (na + k) + 1) (nodes k), wts k (nth 0%N i (na + k))))
   | k <- iota 0 (size i - na)].
 
+(* d/dx_k of the tensor-product Lagrange interpolant: dimension k uses the derivative of the basis polynomials *)
+Fixpoint tlagrange_d (k : nat) (gs : seq (grid (F:=F))) (x : seq F) (ys : seq F) : F :=
+  match gs, x with
+  | [::], _ => 0
+  | (_, (xs, _)) :: gs', x0 :: x' =>
+      match k with
+      | 0%N => \sum_(j < size xs) ((lbase xs (nth 0 xs j))^`()).[x0] *
+                 tlagrange gs' x' (take (gsizes gs') (drop (j * gsizes gs') ys))
+      | k'.+1 => \sum_(j < size xs) (lbase xs (nth 0 xs j)).[x0] *
+                 tlagrange_d k' gs' x' (take (gsizes gs') (drop (j * gsizes gs') ys))
+      end
+  | _, [::] => 0
+  end.
+
+(* affine change of units of one input: nodes a*t+b, tolerance a*tol, same weights *)
+Definition amap (a b : F) (xs : seq F) : seq F := [seq a * t + b | t <- xs].
+Definition gmap (ab : seq (F * F)) (gs : seq (grid (F:=F))) : seq (grid (F:=F)) :=
+  [seq (p.1.1 * p.2.1, (amap p.1.1 p.1.2 p.2.2.1, p.2.2.2)) | p <- zip ab gs].
+Definition xmap (ab : seq (F * F)) (x : seq F) : seq F := [seq p.1.1 * p.2 + p.1.2 | p <- zip ab x].
+
 Definition all_admissible (gs : seq (grid (F:=F))) (x : seq F) : Prop :=
   size x = size gs /\
   forall k, (k < size gs)%N -> let: (tol, (xs, _)) := nth (0, ([::], [::])) gs k in admissible tol xs (nth 0 x k).
